@@ -47,8 +47,14 @@ func (i *inputString) nextCodePoint() rune {
 	return r
 }
 
+// currentIsInvalid tells if the current code point stems from a byte which is not valid UTF-8
+// (as opposed to a well-formed U+FFFD, which is three bytes long).
 func (i *inputString) currentIsInvalid() bool {
-	return i.runes[i.pointer] == utf8.RuneError
+	if i.pointer < 0 || i.pointer >= i.length || i.runes[i.pointer] != utf8.RuneError {
+		return false
+	}
+	_, size := i.currentBytes()
+	return size == 1
 }
 
 func (i *inputString) getCurrentAsByte() byte {
@@ -56,11 +62,20 @@ func (i *inputString) getCurrentAsByte() byte {
 		i.eof = true
 		return 0
 	}
-	var pos int
-	for j := 0; j < i.pointer; j++ {
-		pos += utf8.RuneLen(i.runes[j])
-	}
+	pos, _ := i.currentBytes()
 	return i.s[pos]
+}
+
+// currentBytes returns the byte offset in s of the current code point and the number of bytes it
+// occupies. Bytes which are not valid UTF-8 occupy one byte each, even though they are represented
+// by utf8.RuneError (whose encoding is three bytes long) in runes.
+func (i *inputString) currentBytes() (pos int, size int) {
+	for j := 0; j < i.pointer; j++ {
+		_, n := utf8.DecodeRuneInString(i.s[pos:])
+		pos += n
+	}
+	_, size = utf8.DecodeRuneInString(i.s[pos:])
+	return pos, size
 }
 
 func (i *inputString) rewindLast() {
